@@ -21,6 +21,7 @@ func Retrieve(jsonPath string, src interface{}, config ...Config) ([]interface{}
 // Parse returns the parser function using the given JSONPath.
 func Parse(jsonPath string, config ...Config) (f func(src interface{}) ([]interface{}, error), err error) {
 	parseMutex.Lock()
+	verifEnter(verifKindParse)
 	defer func() {
 		if exception := recover(); exception != nil {
 			if _err, ok := exception.(error); ok {
@@ -28,6 +29,7 @@ func Parse(jsonPath string, config ...Config) (f func(src interface{}) ([]interf
 			}
 		}
 		parser.jsonPathParser = jsonPathParser{}
+		verifExit(verifKindParse)
 		parseMutex.Unlock()
 	}()
 
@@ -51,10 +53,13 @@ func Parse(jsonPath string, config ...Config) (f func(src interface{}) ([]interf
 	parser.Execute()
 
 	root := parser.jsonPathParser.root
+	verifParsed(root)
 	return func(src interface{}) ([]interface{}, error) {
+		verifEnter(verifKindEval)
 		container := getContainer()
 		defer func() {
 			putContainer(container)
+			verifExit(verifKindEval)
 		}()
 
 		if err := root.retrieve(src, src, container); err != nil {
